@@ -349,7 +349,9 @@ fn run_case(case: &Case) -> Verdict {
                 None => {
                     let target_of_cp_mv = j == 1 && matches!(op, Op::Cp(_, _) | Op::Mv(_, _));
                     match resolve_creating(&t, p) {
-                        Some((c, made)) if target_of_cp_mv && !too_long(p) => {
+                        // (a spelling that first creates the target itself as a directory - `nodir/../nodir` - is left
+                        // with the unsettled ones)
+                        Some((c, made)) if target_of_cp_mv && !too_long(p) && !made.contains(&c) => {
                             canonical.push(c);
                             created_on_the_way = made;
                             sim::with_core(|c| c.probe("target-spelled-through-a-directory-that-does-not-exist-yet"));
